@@ -46,7 +46,10 @@ def run_plan(plan, props, want_history=False):
     old = signal.signal(signal.SIGALRM, _on_alarm)
     signal.alarm(RUN_WALL_LIMIT)
     try:
+        frozen = json.dumps(plan, sort_keys=True, default=repr)
         world = execute(plan)
+        if json.dumps(plan, sort_keys=True, default=repr) != frozen:
+            raise HarnessError('executor modified its plan: the replay file would not reproduce the run')
         an = O.Analysis(world) if plan.get('exec', 'core') in ('core',) else None
         violations = []
         for prop in props:
